@@ -12,13 +12,20 @@ package haproxy
 //@ count reload      = (*instance).Reload, (utils.QueueFacade).Add
 
 //@ func (*instance).HAProxyUpdate
-//@   props C12 C13
+//@   props C12
 //@   ensures no-commit-on-error: result != nil ==> calls(Commit) == 0
 //@   ensures commit-on-success:  result == nil && old(i.config) != nil ==> calls(Commit) == 1
 //@   ensures nil-config:         old(i.config) == nil ==> result == nil && calls(Commit) == 0 && calls(writeConfig) == 0 && calls(reload) == 0
 //@   ensures written-first:      calls(reload) > 0 ==> calls(writeConfig) == 1
 //@   ensures one-reload:         calls(reload) <= 1
 //@   ensures one-write:          calls(writeConfig) <= 1
+//@ end
+
+// C13 — a reload is either enqueued on the (rate limited) reload queue or run
+// directly, never both
+//@ func (*instance).HAProxyUpdate#one-reload
+//@   props C13
+//@   ensures one-reload: calls(reload) <= 1
 //@ end
 
 // C05 — an update that removes backends rewrites the configuration files: what
